@@ -182,7 +182,8 @@ func (node *DHTNode) HandlePut(from p2p.PeerID, req PutReq) (PutRes, error) {
 	evicted, added := node.data.Put(req.Key, req.Value, createdAt, expiresAt)
 	node.mu.Unlock()
 	return PutRes{
-		Accepted: wasAccepted(req.Key, evicted, added),
+		// (a node without a data cache stores nothing: Put reports neither an addition nor a victim)
+		Accepted: node.params.DataCacheSize > 0 && wasAccepted(req.Key, evicted, added),
 		Closer:   node.closerNodes(req.Key),
 	}, nil
 }
